@@ -35,11 +35,12 @@ func cropBranch(g *hermes.GlobalVarsMain, zeit int) bool {
 }
 
 type c08Result struct {
-	ok    bool
-	verdu float64
-	crop  bool
-	g     hermes.GlobalVarsMain
-	l     hermes.WaterSharedVars
+	ok     bool
+	precap float64
+	verdu  float64
+	crop   bool
+	g      hermes.GlobalVarsMain
+	l      hermes.WaterSharedVars
 }
 
 // evatraCase replays hermes.Evatra on a copy of the pre-state (gpre, lpre are not modified), emits the
@@ -89,10 +90,49 @@ func evatraCase(tag string, gpre *hermes.GlobalVarsMain, lpre *hermes.WaterShare
 	for k, v := range extra {
 		in[k] = v
 	}
+	// shadow of the potential-ET part on a second copy: oracle table and the value before the cap
+	gs, ls := *gpre, *lpre
+	var orc orcRec
+	precap, shCapped := shEt0(&orc, &ls, &gs, zeit)
+	t := g.TAG.Index
+	et0in := jobj{
+		"tag": tag, "crop": crop, "meth": g.ETMETH, "day": int(g.TAG.Num), "zeit": zeit,
+		"lat": hx(g.LAT), "alti": hx(g.ALTI), "kcoa": hx(g.KCOA), "fkc": hx(g.FKC), "fkb": hx(g.FKB),
+		"fkf": hxs(g.FKF[:]), "fku": hxs(g.FKU[:]), "verd": hx(g.VERD[t]), "temp": hx(g.TEMP[t]), "tmin": hx(g.TMIN[t]),
+		"tmax": hx(g.TMAX[t]), "rad": hx(g.RAD[t]), "sund": hx(g.SUND[t]), "rh": hx(g.RH[t]), "wind": hx(g.WIND[t]),
+		"windhi": hx(g.WINDHI), "etnull": hx(g.ETNULL[t]), "ctrans": g.CTRANS, "co2meth": g.CO2METH, "co2konz": hx(g.CO2KONZ),
+		"mintmp": hx(g.MINTMP), "alph": hx(g.ALPH), "satbeta": hx(g.SATBETA), "radsum": hx(g.RADSUM), "rstom": hx(g.RSTOM),
+		"et0": hx(g.ET0), "satdef": hx(l.SATDEF),
+	}
 	hermes.Evatra(&l, &g, nil, zeit)
 	verdu := g.VERDUNST
 	if g.ETC0 != verdu {
 		harnessNote("verdunst-etc0-differ tag=%s zeit=%d", tag, zeit)
+	}
+	same := func(a, b float64) bool { return a == b || (a != a && b != b) }
+	if !(same(shCapped, verdu) && same(gs.ET0, g.ET0) && same(ls.SATDEF, l.SATDEF) && same(gs.RSTOM, g.RSTOM) &&
+		same(gs.WIND[t], g.WIND[t]) && same(gs.SUND[t], g.SUND[t]) && same(gs.FKC, g.FKC) && same(gs.RADSUM, g.RADSUM)) {
+		harnessNote("shadow-differs tag=%s zeit=%d meth=%d shadow=%v real=%v", tag, zeit, g.ETMETH, shCapped, verdu)
+	}
+	res.precap = precap
+	if emitCase && c08Emit {
+		seen := map[orcCall]bool{}
+		tab := [][]interface{}{}
+		for _, c := range orc.calls {
+			key := orcCall{c.kind, c.a, c.b, 0}
+			if c.a != c.a {
+				key.a = 0
+				key.kind += 100
+			}
+			if seen[key] {
+				continue
+			}
+			seen[key] = true
+			tab = append(tab, []interface{}{c.kind, hx(c.a), hx(c.b), hx(c.v)})
+		}
+		emit(jobj{"k": "et0", "in": et0in, "tab": tab, "out": jobj{
+			"precap": hx(precap), "et0": hx(g.ET0), "satdef": hx(l.SATDEF), "rstom": hx(g.RSTOM), "wind": hx(g.WIND[t]),
+			"sund": hx(g.SUND[t]), "fkc": hx(g.FKC), "radsum": hx(g.RADSUM), "capped": hx(verdu)}})
 	}
 	in["verdu"] = hx(verdu)
 	in["elai"] = hx(math.Exp(-.5 * lai))
@@ -119,6 +159,7 @@ func evatraCase(tag string, gpre *hermes.GlobalVarsMain, lpre *hermes.WaterShare
 
 // c08Oracle: the property on a post-Evatra state of the real code; verdu = the day's capped potential ET
 func c08Oracle(where string, g *hermes.GlobalVarsMain, l *hermes.WaterSharedVars, verdu float64, crop bool) {
+	c08Et0Oracle(where, g, verdu, crop)
 	n := g.N
 	cap := 0.6
 	if crop {
@@ -160,6 +201,43 @@ func c08Oracle(where string, g *hermes.GlobalVarsMain, l *hermes.WaterSharedVars
 	// above 1 at binary64 (R->F gap, tolerance 1e-9)
 	if !(g.TRREL >= 0 && g.TRREL <= 1+1e-9) {
 		oracleFail("trrel-outside-0-1 %s trrel=%v", where, g.TRREL)
+	}
+}
+
+// the potential ET the day ends up with is finite and inside [0, cap]; the reference ET of Penman-Monteith and
+// Priestley-Taylor (g.ET0, after the code's own floor) is finite and non-negative
+func c08Et0Oracle(where string, g *hermes.GlobalVarsMain, verdu float64, crop bool) {
+	if !finite(verdu) {
+		oracleFail("pet-not-finite %s verdu=%v", where, verdu)
+	}
+	if (g.ETMETH == 3 || g.ETMETH == 4) && !(finite(g.ET0) && g.ET0 >= 0) {
+		oracleFail("et0-negative-or-not-finite %s et0=%v", where, g.ET0)
+	}
+}
+
+// every ET method on the same pre-state: replays the real Evatra with ETMETH = 1..5
+func c08AllMethods(where string, gpre *hermes.GlobalVarsMain, lpre *hermes.WaterSharedVars, zeit int) {
+	for m := 1; m <= 5; m++ {
+		if m == gpre.ETMETH || (m == 1 && zeit == gpre.SAAT[gpre.AKF.Index]) {
+			continue
+		}
+		g, l := *gpre, *lpre
+		g.ETMETH = m
+		g.VERDUNST, g.ETC0 = 0, 0
+		crop := cropBranch(&g, zeit)
+		hermes.Evatra(&l, &g, nil, zeit)
+		w := fmt.Sprintf("%s as-meth=%d", where, m)
+		c08Et0Oracle(w, &g, g.VERDUNST, crop)
+		cap := 0.6
+		if crop {
+			cap = 0.65
+		}
+		if !(g.VERDUNST >= 0 && g.VERDUNST <= cap) {
+			oracleFail("pet-outside-0-cap %s verdu=%v cap=%v", w, g.VERDUNST, cap)
+		}
+		if !(g.ETA >= -1e-12) || !(g.ETREL >= -1e-12 && g.ETREL <= 1) || !(g.TRREL >= 0 && g.TRREL <= 1+1e-9) {
+			oracleFail("aet-or-ratio-outside-range %s eta=%v etrel=%v trrel=%v", w, g.ETA, g.ETREL, g.TRREL)
+		}
 	}
 }
 
@@ -239,6 +317,15 @@ func synthEvatra(r *rng, idx int) {
 	g.RH[t] = r.between(15, 100)
 	g.VERD[t] = r.between(0, 40)
 	g.WIND[t] = r.between(0, 12)
+	if r.chance(0.12) {
+		g.RH[t] = 100 // saturation deficit 0
+	}
+	if r.chance(0.1) {
+		g.VERD[t] = 0
+	}
+	if r.chance(0.12) {
+		g.WIND[t] = 0
+	}
 	g.ETNULL[t] = r.between(0, 14)
 	if r.chance(0.1) {
 		g.ETNULL[t] = -r.between(0, 3)
@@ -442,6 +529,7 @@ func c08Trace(work, line string, lineNo int, r *rng, every int) {
 				harnessNote("replay-differs-from-run %s", where)
 			}
 			c08Oracle(where, g, w, res.verdu, res.crop)
+			c08AllMethods(where, &pre.g, &pre.l, zeit)
 		case "water":
 			if subd == 1 {
 				c08UptakeAvail(fmt.Sprintf("trace line=%d zeit=%d", lineNo, zeit), g, wgStart[:g.N])
@@ -475,6 +563,11 @@ func c08(args []string) {
 	defer stdout.Flush()
 	r := newRng(*seed)
 	c08Edge = *edge
+	{
+		one := 1.0
+		emit(jobj{"k": "et0consts", "c": hxs([]float64{math.Pi * one, 2 * math.Pi * one, 2 * math.Pi / 365 * one, 8. * math.Pi / 180. * one,
+			24. * 60. / math.Pi * 8.20 * one, 24. / math.Pi * one})})
+	}
 	for i := 0; i < *nsynth; i++ {
 		synthEvatra(r, i)
 	}
